@@ -46,7 +46,7 @@ fn ref_size(buf: &[u8], len: usize) -> Option<(usize, u64)> {
     Some((w, x >> 2))
 }
 
-/// hand-written UTF-8 validity for at most 3 bytes (Unicode table 3-7), independent of core::str
+/// hand-written UTF-8 validity (Unicode table 3-7: 1- to 4-byte well-formed sequences), independent of core::str
 fn utf8_ok(b: &[u8], from: usize, n: usize) -> bool {
     let mut i = 0;
     while i < n {
@@ -64,6 +64,21 @@ fn utf8_ok(b: &[u8], from: usize, n: usize) -> bool {
             let hi = if c == 0xED { 0x9F } else { 0xBF };
             if i + 2 < n && b[from + i + 1] >= lo && b[from + i + 1] <= hi && b[from + i + 2] >= 0x80 && b[from + i + 2] <= 0xBF {
                 i += 3;
+            } else {
+                return false;
+            }
+        } else if c >= 0xF0 && c <= 0xF4 {
+            let lo = if c == 0xF0 { 0x90 } else { 0x80 };
+            let hi = if c == 0xF4 { 0x8F } else { 0xBF };
+            if i + 3 < n
+                && b[from + i + 1] >= lo
+                && b[from + i + 1] <= hi
+                && b[from + i + 2] >= 0x80
+                && b[from + i + 2] <= 0xBF
+                && b[from + i + 3] >= 0x80
+                && b[from + i + 3] <= 0xBF
+            {
+                i += 4;
             } else {
                 return false;
             }
@@ -170,6 +185,36 @@ macro_rules! wide_size_string {
         }
         core::mem::forget(r);
     }};
+}
+
+//@ prop: C11
+//@ family: K11-string
+//@ tier: thorough
+//@ functions: <String as DecodeFrom>::decode_from, String::from_utf8
+//@ inst: Decoder<SliceInputSource>
+//@ inputs: [4<<2, b0, b1, b2, b3, t] for all bytes (all 4-byte forms incl. F0 80..8F overlong, F4 90.. beyond U+10FFFF, F5.. and truncated multi-byte sequences at the end)
+//@ oracle: as k11_string_1 with the full validator
+//@ bound: unwind 8; announced length concrete (4)
+//@ timeout: 1500
+#[kani::proof]
+#[kani::unwind(8)]
+fn k11_string_4() {
+    string_exact!(4)
+}
+
+//@ prop: C11
+//@ family: K11-string
+//@ tier: thorough
+//@ functions: <String as DecodeFrom>::decode_from, String::from_utf8
+//@ inst: Decoder<SliceInputSource>
+//@ inputs: [7<<2, seven arbitrary bytes, t]: every 7-byte content (2^56 byte strings)
+//@ oracle: as k11_string_1 with the full validator
+//@ bound: unwind 11; announced length concrete (7)
+//@ timeout: 2400
+#[kani::proof]
+#[kani::unwind(11)]
+fn k11_string_7() {
+    string_exact!(7)
 }
 
 //@ prop: C11
